@@ -107,6 +107,7 @@ func runC17(c *Ctx) Info {
 		Explanation: "VALIDATE-FIRST: every integer argument of every encoding entry point (and the EncodeParams fields the property names) must be compared in an error-exiting test before any other use, on every side the format limits. BUFFER-CHECK: every []byte pixel argument is length-tested against an expression of the geometry before it is indexed or passed on. NARROW: every narrowing conversion on the way to a header byte is value-preserving under the ranges the validation establishes (engine E2). IDX/DIV/MAKE/SHIFT/ASSERT/PANIC over encode-reachable code with the arguments as adversarial sources.",
 		DoesNotCover: "that a returned stream decodes to the requested geometry beyond NARROW; silent replacement of invalid parameter values by Validate() (documented normalisation)",
 		Trusted:      commonTrusted,
+		Assumptions:  rangeAssumptions,
 		Extra:        map[string]any{"functions_analysed": len(funcs), "validate_first_args": nv, "buffer_args": nb, "narrow_sites": nn, "range_sites": map[string]int{"IDX": st.idx, "DIV": st.div, "MAKE": st.mk, "SHIFT": st.shift, "ASSERT": st.assert, "PANIC": st.panics}},
 	}
 }
